@@ -35,7 +35,11 @@ REQUIRED_COUNTERS = ["renders_compared", "expected_compile_errors_seen", "module
 
 CODECS = ["ascii", "utf-8", "latin-1", "cp1251", "cp1252", "koi8-r", "shift_jis", "euc-jp", "gb2312", "iso-8859-15", "utf-8-bom"]
 DECLS = ["comment", "input_encoding", "both", "conflict", "none", "bom_conflict", "ascii_lie"]
-OUTPUTS = [None, ("same", "strict"), ("ascii", "replace"), ("ascii", "xmlcharrefreplace"), ("ascii", "htmlentityreplace"), ("latin-1", "strict")]
+OUTPUTS = [None, ("same", "strict"), ("ascii", "replace"), ("ascii", "xmlcharrefreplace"), ("ascii", "htmlentityreplace"), ("latin-1", "strict"),
+           # codecs whose encoder keeps state across the document (a leading BOM, shift sequences): the whole output
+           # is one encode() call, not one per written piece
+           ("utf-16", "strict"), ("utf-8-sig", "strict"), ("utf-32", "strict"), ("iso2022_jp", "replace"), ("utf-7", "strict"), ("hz", "replace"),
+           ("shift_jis", "xmlcharrefreplace"), ("cp1251", "htmlentityreplace")]
 
 _st = {}
 _rep = {}
